@@ -42,12 +42,12 @@ import (
 // with os.Exit from inside the bubble.
 
 type c20ChildResult struct {
-	Verdict    bool   `json:"verdict"`  // progress.AllProgressComplete()
-	ExitCode   int    `json:"exit"`     // what main.go would pass to os.Exit
-	Stage      string `json:"stage"`    // last stage reached ("done" = summary printed and verdict taken)
+	Verdict    bool   `json:"verdict"` // progress.AllProgressComplete()
+	ExitCode   int    `json:"exit"`    // what main.go would pass to os.Exit
+	Stage      string `json:"stage"`   // last stage reached ("done" = summary printed and verdict taken)
 	Err        string `json:"err,omitempty"`
 	VirtualSec int64  `json:"virtual_s"` // simulated seconds
-	Progress   string `json:"progress"` // what the progress writer printed (ANSI stripped)
+	Progress   string `json:"progress"`  // what the progress writer printed (ANSI stripped)
 }
 
 const c20ChildPlanEnv = "C20_CHILD_PLAN"
@@ -200,37 +200,37 @@ type c20TrackerLine struct { // a finished tracker as printed by the progress wr
 }
 
 type c20SimRecord struct {
-	Result       c20ChildResult   `json:"result"`
-	ChildExit    int              `json:"child_exit"`
-	ChildTail    string           `json:"child_tail,omitempty"`
-	Crash        string           `json:"crash"`            // first line of a panic / fatal error of the child
-	CrashAt      string           `json:"crash_at"`         // first repository frame of its stack (file:line)
-	CrashInSummary bool           `json:"crash_in_summary"` // the stack goes through Group.ReportResults
-	WallMs       int64            `json:"wall_ms"`
-	Rows         []c20Row         `json:"rows"`
-	Sent         []c20Sent        `json:"sent"`
-	Checks       []c20Check       `json:"checks"` // only those whose (upkeep, block) occurs in a row
-	ChecksTotal  int              `json:"checks_total"`
-	Nodes        int              `json:"nodes"`
-	ConfigLoads  int              `json:"config_loads"`  // "config loaded at" lines
-	BlocksSeen   int              `json:"blocks_seen"`   // distinct "next block" lines + genesis
-	SummaryEnd   bool             `json:"summary_end"`   // "================ end ================" printed
-	SummaryPanic string           `json:"summary_panic,omitempty"`
-	Trackers     []c20TrackerLine `json:"trackers"`
-	FinalResults int              `json:"final_results"` // "%d transmits returned in final results" (last)
-	SavedPlanOK  bool             `json:"saved_plan_ok"` // <out>/simulation_plan.json loads and equals the plan that ran
-	Races        int              `json:"races"`         // race reports (race build only), except the ignored ones
-	RaceSites    []string         `json:"race_sites"`    // "file:line ~ file:line" per counted report
-	RacesIgnored []string         `json:"races_ignored"` // reports with BOTH accesses inside github.com/jedib0t/go-pretty (sites)
-	RaceBuild    bool             `json:"race_build"`
+	Result         c20ChildResult   `json:"result"`
+	ChildExit      int              `json:"child_exit"`
+	ChildTail      string           `json:"child_tail,omitempty"`
+	Crash          string           `json:"crash"`            // first line of a panic / fatal error of the child
+	CrashAt        string           `json:"crash_at"`         // first repository frame of its stack (file:line)
+	CrashInSummary bool             `json:"crash_in_summary"` // the stack goes through Group.ReportResults
+	WallMs         int64            `json:"wall_ms"`
+	Rows           []c20Row         `json:"rows"`
+	Sent           []c20Sent        `json:"sent"`
+	Checks         []c20Check       `json:"checks"` // only those whose (upkeep, block) occurs in a row
+	ChecksTotal    int              `json:"checks_total"`
+	Nodes          int              `json:"nodes"`
+	ConfigLoads    int              `json:"config_loads"` // "config loaded at" lines
+	BlocksSeen     int              `json:"blocks_seen"`  // distinct "next block" lines + genesis
+	SummaryEnd     bool             `json:"summary_end"`  // "================ end ================" printed
+	SummaryPanic   string           `json:"summary_panic,omitempty"`
+	Trackers       []c20TrackerLine `json:"trackers"`
+	FinalResults   int              `json:"final_results"` // "%d transmits returned in final results" (last)
+	SavedPlanOK    bool             `json:"saved_plan_ok"` // <out>/simulation_plan.json loads and equals the plan that ran
+	Races          int              `json:"races"`         // race reports (race build only), except the ignored ones
+	RaceSites      []string         `json:"race_sites"`    // "file:line ~ file:line" per counted report
+	RacesIgnored   []string         `json:"races_ignored"` // reports with BOTH accesses inside github.com/jedib0t/go-pretty (sites)
+	RaceBuild      bool             `json:"race_build"`
 }
 
 var (
-	c20RowRe    = regexp.MustCompile(`^\|\s*(\S+)\s*\|\s*(\d+)\s*\|\s*(\S+)\s*\|\s*(\S+)\s*\|\s*(\d+)\s*\|$`)
-	c20SentRe   = regexp.MustCompile(`transmit sent from (\S+) in round (\d+)`)
-	c20CheckRe  = regexp.MustCompile(`: (\d+) eligibility (true|false) at block (\d+)`)
-	c20FinalRe  = regexp.MustCompile(`(\d+) transmits returned in final results`)
-	c20DoneRe   = regexp.MustCompile(`^(.*?)\s+\.\.\.\s+(done!|fail!)\s+\[(\S+) in`)
+	c20RowRe   = regexp.MustCompile(`^\|\s*(\S+)\s*\|\s*(\d+)\s*\|\s*(\S+)\s*\|\s*(\S+)\s*\|\s*(\d+)\s*\|$`)
+	c20SentRe  = regexp.MustCompile(`transmit sent from (\S+) in round (\d+)`)
+	c20CheckRe = regexp.MustCompile(`: (\d+) eligibility (true|false) at block (\d+)`)
+	c20FinalRe = regexp.MustCompile(`(\d+) transmits returned in final results`)
+	c20DoneRe  = regexp.MustCompile(`^(.*?)\s+\.\.\.\s+(done!|fail!)\s+\[(\S+) in`)
 )
 
 func c20Shorten(full string, n int) string {
